@@ -137,32 +137,27 @@ def run(ctx, env):
                site=b.line(min(region)) if region else "")
     ctx.floor("R7.2", "crate", "dispatch functions with guards", len(guard_bodies), 2)
 
-    # R7.3
+    # R7.3 — form-independent: every cache lookup (`get`) on the parse path sits in a decoder whose callers are all
+    # guarded (R7.1), so whatever the lookup falls back to when the id is missing (unwrap_or_default(), a `None` arm,
+    # unwrap_or(&default)) is unreachable
     nfb = 0
     fb_decoders = set()
-    for b in prog.bodies.values():
-        if b.derived or "parse_le" in b.path:
+    for r in ca.reads:
+        if r["callee"].npath not in GET:
             continue
-        for blk, t, c in b.calls():
-            if c is None or c.nsyn not in ("std::option::Option::unwrap_or_default", "std::option::Option::unwrap_or", "std::option::Option::unwrap_or_else"):
-                continue
-            e = an.op(b, t["args"][0])
-            src = find(e, lambda n: n[0] == "call" and n[2] is not None and n[2].npath in GET)
-            if not src:
-                continue
-            _, recv = an.lift(b, src[0][3][0])
-            recv = peel(recv)
-            if not (recv[0] == "field" and recv[3] in PARSER_ADTS):
-                continue
-            nfb += 1
-            d = decoder_of(b.path)
-            fb_decoders.add(d or b.path)
-            ok = d is not None and bool(guarded_decoders.get(d)) and all(guarded_decoders[d])
-            ctx.ob("R7.3", b.path, "fallback-unreachable:%s.%s" % (recv[3].rsplit("::", 1)[1], recv[2]), ok,
-                   "default-template fallback in %s; %s" % (d or "a non-decoder function", "all callers are guarded by contains_key" if ok else "not proven unreachable"),
-                   site=b.line(blk))
-    ctx.count("cache_lookup_fallback_sites", nfb)
-    ctx.floor("R7.3", "crate", "decoders with a default-template fallback on their cache lookup", len(fb_decoders), 4)
+        rb = r["body"]
+        if rb.derived or "parse_le" in rb.path:
+            continue
+        nfb += 1
+        d = decoder_of(rb.path)
+        if d:
+            fb_decoders.add(d)
+        ok = d is not None and bool(guarded_decoders.get(d)) and all(guarded_decoders[d])
+        ctx.ob("R7.3", rb.path, "fallback-unreachable:%s.%s" % (r["adt"].rsplit("::", 1)[1], r["field"]), ok,
+               "template lookup in %s; %s" % (d or "a non-decoder function", "all callers are guarded by contains_key on the same map and key, so the lookup always hits" if ok else "not proven to hit: a missing template would decode with a fallback"),
+               site=rb.line(r["block"]))
+    ctx.count("cache_lookup_sites", nfb)
+    ctx.floor("R7.3", "crate", "decoders with a cache lookup", len(fb_decoders), 4)
     for d in ("variable_versions::ipfix::Data", "variable_versions::ipfix::OptionsData"):
         b = prog.body(d + "::parse_be")
         if not ctx.anchor("R7.3", d + "::parse_be", b):
